@@ -559,27 +559,33 @@ def rule_located_errors(ctx):
                      where_of(model, row.qualname), "no handler around field construction that gives an unlocated InterfaceError the row's location")
         return
     # reachability without passing through the wrapped calls
-    seen = set()
-    stack = [read]
-    while stack:
-        func = stack.pop()
-        if func.qualname in seen:
-            continue
-        seen.add(func.qualname)
-        for node in walk_own(func.node):
-            if isinstance(node, ast.Call) and id(node) not in wrapped_calls:
-                for target in graph.resolve_call(func, node):
-                    if hasattr(target, "qualname"):
-                        stack.append(target)
-            elif isinstance(node, ast.Attribute) and isinstance(node.ctx, ast.Store):
-                stack.extend(graph.property_setters(node.attr))
-        for other in model.functions.values():
-            if other.parent is func:
-                stack.append(other)
-    exempt = {
-        "cutplace.data.DataFormat.validate.check_distinct": "contradiction between two property rows: no single row to name",
-        "cutplace.data.DataFormat.validate": "contradiction found when the CID is completed: no single row to name",
-    }
+    def reach(skip=()):
+        found = set()
+        stack = [read]
+        while stack:
+            func = stack.pop()
+            if func.qualname in found or func.qualname in skip:
+                continue
+            found.add(func.qualname)
+            for node in walk_own(func.node):
+                if isinstance(node, ast.Call) and id(node) not in wrapped_calls:
+                    for target in graph.resolve_call(func, node):
+                        if hasattr(target, "qualname"):
+                            stack.append(target)
+                elif isinstance(node, ast.Attribute) and isinstance(node.ctx, ast.Store):
+                    stack.extend(graph.property_setters(node.attr))
+            for other in model.functions.values():
+                if other.parent is func:
+                    stack.append(other)
+        return found
+
+    seen = reach()
+    # what is only reached through DataFormat.validate (called once, after the last row) checks the data format as a
+    # whole: a contradiction between two property rows has no single row to name
+    completion = "cutplace.data.DataFormat.validate"
+    only_at_completion = seen - reach(skip=(completion,))
+    exempt = {qualname: "contradiction between property rows found when the CID is completed: no single row to name"
+              for qualname in only_at_completion}
     for qualname in sorted(seen):
         func = model.functions[qualname]
         for node in walk_own(func.node):
